@@ -31,7 +31,7 @@ theorem chain_transparent (cfg : Cfg) (who : Query → Outcome) (q : Query)
       intro h
       have : anyRefused cfg q = true := (anyRefused_iff cfg q).2 ⟨q0, rest, hqs, h.1, h.2⟩
       rw [hany] at this; cases this
-    have h2 : ¬ (cfg.whoamiDomain ≠ "" ∧ whoamiMatch cfg.domain q0.name = true) := by
+    have h2 : ¬ (cfg.whoamiDomain ≠ [] ∧ whoamiMatch cfg.domain q0.name = true) := by
       intro h
       have : whoamiHit cfg q = true := (whoamiHit_iff cfg q).2 ⟨q0, rest, hqs, h.1, h.2⟩
       rw [hwho] at this; cases this
@@ -47,10 +47,10 @@ theorem chain_transparent_plain (maxAns : Nat) (who : Query → Outcome) (q : Qu
 
 /-- the value the database handler sees is the listener's, never the default -/
 example : chain { maxAns := 3 } (fun _ => .noReply)
-    { questions := [⟨"four.ex.com.", 1, 1⟩] }
+    { questions := [⟨"four.ex.com.".toList, 1, 1⟩] }
     (fun m q => .reply { setReply q with rcode := m }) =
     .reply { id := 0, response := true, opcode := 0, rd := false, cd := false, rcode := 3,
-             question := [⟨"four.ex.com.", 1, 1⟩] } := by decide
+             question := [⟨"four.ex.com.".toList, 1, 1⟩] } := by decide
 
 /-! ### ANY refusal (RFC 8482) -/
 
@@ -94,14 +94,14 @@ theorem any_refused_independent (cfg : Cfg) (q : Query) (h : anyRefused cfg q = 
   rw [h1, h2]
 
 example :
-    chain { refuseANY := true, whoamiDomain := "ex.com" } (fun _ => .panic)
-      { id := 7, rd := true, questions := [⟨"Ex.COM.", 255, 1⟩] } (fun _ _ => .panic) =
+    chain { refuseANY := true, whoamiDomain := "ex.com".toList } (fun _ => .panic)
+      { id := 7, rd := true, questions := [⟨"Ex.COM.".toList, 255, 1⟩] } (fun _ _ => .panic) =
     .reply { id := 7, response := true, opcode := 0, rd := true, cd := false, rcode := 0,
-             question := [⟨"Ex.COM.", 255, 1⟩],
-             answer := [⟨"Ex.COM.", 13, 1, 86400, .hinfo "RFC 8482" ""⟩] } := by decide
+             question := [⟨"Ex.COM.".toList, 255, 1⟩],
+             answer := [⟨"Ex.COM.".toList, 13, 1, 86400, .hinfo "RFC 8482" ""⟩] } := by decide
 
 /-- refusal off: ANY goes to the database like any other type -/
-example : chain {} (fun _ => .noReply) { questions := [⟨"ex.com.", 255, 1⟩] } (fun _ _ => .panic)
+example : chain {} (fun _ => .noReply) { questions := [⟨"ex.com.".toList, 255, 1⟩] } (fun _ _ => .panic)
     = .panic := by decide
 
 /-! ### no question -/
@@ -162,7 +162,7 @@ theorem listener_accepts (cfg : Cfg) (who : Query → Outcome) (h : Hdr) (q : Qu
   unfold listener serveDNS
   rw [ha]
 
-example : listener { refuseANY := true, whoamiDomain := "w.ex.com" } (fun _ => .panic)
+example : listener { refuseANY := true, whoamiDomain := "w.ex.com".toList } (fun _ => .panic)
     { id := 9, qdcount := 0, rd := true } none (fun _ _ => .panic) =
     .reply { id := 9, response := true, opcode := 0, rd := true, cd := false, rcode := 1 } := by
   decide
@@ -170,9 +170,9 @@ example : listener { refuseANY := true, whoamiDomain := "w.ex.com" } (fun _ => .
 /-! ### whoami -/
 
 /-- the match rule: same byte length and equal after lower-casing the query name -/
-theorem whoamiMatch_iff (domain name : String) :
+theorem whoamiMatch_iff (domain name : Name) :
     whoamiMatch domain name = true ↔
-      name.utf8ByteSize = domain.utf8ByteSize ∧ toLower name = domain := by
+      name.length = domain.length ∧ toLower name = domain := by
   unfold whoamiMatch
   simp
 
@@ -200,7 +200,7 @@ theorem whoami_only_on_match (cfg : Cfg) (q : Query) (db : MaxAns → Query → 
   cases hqs : q.questions with
   | nil => rfl
   | cons q0 rest =>
-    have h2 : ¬ (cfg.whoamiDomain ≠ "" ∧ whoamiMatch cfg.domain q0.name = true) := by
+    have h2 : ¬ (cfg.whoamiDomain ≠ [] ∧ whoamiMatch cfg.domain q0.name = true) := by
       intro h
       have : whoamiHit cfg q = true := (whoamiHit_iff cfg q).2 ⟨q0, rest, hqs, h.1, h.2⟩
       rw [hwho] at this; cases this
@@ -209,12 +209,12 @@ theorem whoami_only_on_match (cfg : Cfg) (q : Query) (db : MaxAns → Query → 
 /-- configuration `WhoAmI.Ex.Com` (no trailing dot, mixed case): hit for any spelling of the
 name, miss for a longer or a shorter one -/
 example :
-    let cfg : Cfg := { whoamiDomain := "WhoAmI.Ex.Com" }
-    cfg.domain = "whoami.ex.com." ∧
-    whoamiHit cfg { questions := [⟨"WHOAMI.ex.com.", 16, 1⟩] } = true ∧
-    whoamiHit cfg { questions := [⟨"a.whoami.ex.com.", 16, 1⟩] } = false ∧
-    whoamiHit cfg { questions := [⟨"whoami.ex.co.", 16, 1⟩] } = false ∧
-    whoamiHit {} { questions := [⟨".", 16, 1⟩] } = false := by decide
+    let cfg : Cfg := { whoamiDomain := "WhoAmI.Ex.Com".toList }
+    cfg.domain = "whoami.ex.com.".toList ∧
+    whoamiHit cfg { questions := [⟨"WHOAMI.ex.com.".toList, 16, 1⟩] } = true ∧
+    whoamiHit cfg { questions := [⟨"a.whoami.ex.com.".toList, 16, 1⟩] } = false ∧
+    whoamiHit cfg { questions := [⟨"whoami.ex.co.".toList, 16, 1⟩] } = false ∧
+    whoamiHit {} { questions := [⟨".".toList, 16, 1⟩] } = false := by decide
 
 /-! ### truncation (abstract rule) -/
 
@@ -233,7 +233,7 @@ theorem oversize_truncated (T : TruncRule) (cfg : Cfg) (who : Query → Outcome)
   rw [chain_transparent cfg who q _ hq hany hwho]
   unfold scrubbedDb
   rw [hr]
-  unfold scrubOutcome scrub
+  simp only [scrubOutcome, scrub]
   by_cases hf : fits T r (sizeLimit q) = true
   · refine ⟨r, by rw [if_pos hf], ?_, fun _ => rfl, ?_⟩
     · simpa [fits] using hf
@@ -267,7 +267,7 @@ example :
         cut := fun n r => { r with answer := r.answer.take n, tc := true }
         cut_fits := fun n r => by simp [List.length_take]; omega
         cut_tc := fun _ _ _ => rfl }
-    let r : Response := { setReply {} with answer := [hinfoRR "a", hinfoRR "b", hinfoRR "c"] }
+    let r : Response := { setReply {} with answer := [hinfoRR ['a'], hinfoRR ['b'], hinfoRR ['c']] }
     fits T r 2 = false ∧ (T.cut 2 r).tc = true ∧ T.size (T.cut 2 r) = 2 := by
   refine ⟨by decide, rfl, by decide⟩
 
